@@ -940,6 +940,9 @@ void World::opSatPart(const Step &s)
                     if (!touch[size_t(v)]) continue;
                     sm.from[v] = int(R.below(D.sizes[v-1]));
                     sm.to[v] = R.chance(1, 5) ? -2 : int(R.below(D.sizes[v-1]));
+                    // one touched variable in five is a reset: any value -> the
+                    // target (an event that is not injective on that variable)
+                    if (sm.to[v] >= 0 && R.chance(1, 5)) sm.from[v] = -1;
                 }
                 for (long x = 0; x < D.N; x++) for (long y = 0; y < D.N; y++)
                     if (symMatches(D, true, sm, x, y)) U.v[size_t(x * D.N + y)] = Val::b(true);
@@ -1162,6 +1165,34 @@ void World::opIndexSet(const Step &s)
     }
     stats.opcount["index:convert"]++;
     if (!checkEdge(*res, "I1", cur_family, "index set")) return;
+    // the cardinality stored in every node of the result equals the number
+    // of members below it
+    {
+        std::map<node_handle, long> memo;
+        std::function<long(node_handle)> count = [&](node_handle p) -> long {
+            if (p == 0) return 0;
+            if (p < 0) return 1;
+            auto it = memo.find(p);
+            if (it != memo.end()) return it->second;
+            unpacked_node* U = unpacked_node::newFromNode(FR.f, p, SPARSE_ONLY);
+            long c = 0;
+            for (unsigned z = 0; z < U->getSize(); z++) c += count(U->down(z));
+            unpacked_node::Recycle(U);
+            memo[p] = c;
+            return c;
+        };
+        count(res->e->getNode());
+        for (auto &kv : memo) {
+            const long stored = FR.f->getIndexSetCardinality(kv.first);
+            if (stored != kv.second) {
+                std::ostringstream o;
+                o << "index-set node " << kv.first << " stores cardinality " << stored << ", " << kv.second << " members lie below it";
+                failNow("X2", cur_family, o.str());
+                return;
+            }
+        }
+        stats.opcount["index:node_cardinalities"] += long(memo.size());
+    }
     // lookups
     try {
         minterm m(FR.f);
